@@ -251,12 +251,12 @@ CHECKS['C15'] = {
                    'IsPatternUnique and IsPatternListOfUniqueValues must be consistent with what actually matched; EscapeRegexTokens(t) must match t and no mutation of t; leading <a-b,c-> range lists must match exactly the decimal integers in range. Held = no disagreement on everything generated.'),
     'level_note': ('Trusted: the NFA reference over the AST (it never sees the pattern text). Sound alphabet: literals from alnum . + - _ : space, every metacharacter as an escaped literal (escaped exactly where IsRegexToken says), two non-ASCII bytes; class contents alnum and ranges. '
                    'Metacharacters inside [...] are generated only for the known finding F14 (translation not bracket-aware).'),
-    'rule': ('Byte-decoded cases: 6/8 AST patterns (<= 3 comma parts x <= 4 nodes, nesting 2, optional leading ~) with 8 subjects each, 1/8 escape law on arbitrary byte strings, 1/8 numeric range lists. '
+    'rule': ('Byte-decoded cases: 5/8 AST patterns (<= 3 comma parts x <= 4 nodes, nesting 2, optional leading ~) with 8 subjects each, 1/8 escape law on arbitrary byte strings, 1/8 numeric range lists, 1/8 uniqueness law on raw pattern strings over {x y \\ * ? ,} (incl. a trailing lone backslash) judged against all 258 subjects of up to 3 symbols. '
              'Non-trivial: pattern has >= 2 constructs and the subject set contains both a match and a non-match (range lists: both; escape law: the string contains a metacharacter). Distinct: hash of the pattern text.'),
     'assumptions': ['subjects for range patterns are canonical decimal integers or purely alphabetic strings'],
     'targets': [
         {'name': 'c15_patterns', 'src': ['harness/C15_patterns.cpp'], 'quick_n': 3000000, 'thorough_n': 24000000, 'maxlen': 300, 'min_nontrivial': 300000, 'timeout_is_violation': False,
-         'class_floors': {'mode_ast_patterns': 500000, 'mode_escape_law': 200000, 'mode_numeric_ranges': 200000, 'case_negated': 100000, 'case_comma_list': 200000}},
+         'class_floors': {'mode_ast_patterns': 500000, 'mode_escape_law': 200000, 'mode_numeric_ranges': 200000, 'mode_raw_pattern_uniqueness': 150000, 'case_negated': 100000, 'case_comma_list': 200000}},
     ],
 }
 
